@@ -597,27 +597,153 @@ Proof.
   repeat split; intros ->; apply H; apply in_or_app; right; unfold hop_headers; cbn [In]; auto 10.
 Qed.
 
+(* the pre-User-Agent part of fwd_headers *)
+Definition fwd_h3 (h : header) : header :=
+  let h1 := remove_hop h in
+  let h2 := if values_contain_token (hvalues h k_te) (bs "trailers") then hset k_te (bs "trailers") h1 else h1 in
+  let ut := upgrade_type h in
+  if nonempty ut then hset k_upgrade ut (hset k_connection (bs "Upgrade") h2) else h2.
+Lemma fwd_headers_h3 h :
+  fwd_headers h = if hhas (fwd_h3 h) k_user_agent then fwd_h3 h else hset k_user_agent [] (fwd_h3 h).
+Proof. reflexivity. Qed.
+
+Lemma fwd_h3_values h k : is_hop h k = false -> hvalues (fwd_h3 h) k = hvalues h k.
+Proof.
+  intros H. destruct (hop_names _ _ H) as (N1 & N2 & N3). unfold fwd_h3.
+  destruct (nonempty (upgrade_type h)); [rewrite !hvalues_hset by assumption|];
+    (destruct (values_contain_token _ _); [rewrite hvalues_hset by assumption|]; now apply hvalues_remove_hop).
+Qed.
+
+Lemma fwd_headers_values h k :
+  is_hop h k = false -> (k = k_user_agent -> hhas h k = true) ->
+  hvalues (fwd_headers h) k = hvalues h k.
+Proof.
+  intros H UA. pose proof (fwd_h3_values h k H) as E3. rewrite fwd_headers_h3.
+  destruct (hhas (fwd_h3 h) k_user_agent) eqn:U; [exact E3|].
+  destruct (beq k k_user_agent) eqn:B.
+  - apply beq_eq in B. specialize (UA B). subst k.
+    rewrite hhas_hvalues in U, UA. rewrite E3 in U. congruence.
+  - apply beq_neq in B. rewrite hvalues_hset by assumption. exact E3.
+Qed.
+
+Lemma hvalues_hdel_same k h : hvalues (hdel k h) k = [].
+Proof.
+  induction h as [|[a b] r IH]; [reflexivity|]. rewrite hdel_cons.
+  destruct (beq a k) eqn:E; [exact IH|]. rewrite hvalues_cons, E. exact IH.
+Qed.
+Lemma hvalues_hinsert_same k v h : hvalues h k = [] -> hvalues (hinsert k v h) k = [v].
+Proof.
+  induction h as [|[a b] r IH]; intros E; cbn [hinsert].
+  - rewrite hvalues_cons, beq_refl. reflexivity.
+  - rewrite hvalues_cons in E. destruct (beq a k) eqn:B; [discriminate|].
+    destruct (str_ltb k a).
+    + rewrite hvalues_cons, beq_refl, hvalues_cons, B, E. reflexivity.
+    + rewrite hvalues_cons, B. now apply IH.
+Qed.
+Lemma hvalues_hset_same k v h : hvalues (hset k v h) k = [v].
+Proof. unfold hset. apply hvalues_hinsert_same, hvalues_hdel_same. Qed.
+
+Lemma fwd_headers_ua_absent h :
+  is_hop h k_user_agent = false -> hhas h k_user_agent = false ->
+  hvalues (fwd_headers h) k_user_agent = [[]].
+Proof.
+  intros H A. pose proof (fwd_h3_values h _ H) as E3. rewrite fwd_headers_h3.
+  assert (U : hhas (fwd_h3 h) k_user_agent = false).
+  { rewrite hhas_hvalues, E3. rewrite hhas_hvalues in A. exact A. }
+  rewrite U. apply hvalues_hset_same.
+Qed.
+
 Theorem headers_identity o q u k :
   forward false o q = Ok u ->
   is_hop (rq_headers q) k = false ->
   (k = k_user_agent -> hhas (rq_headers q) k = true) ->
   hvalues (up_headers u) k = hvalues (rq_headers q) k.
 Proof.
-  intros F H UA. apply forward_inv in F as (p & _ & _ & _ & _ & _ & E). rewrite E. clear E.
-  destruct (hop_names _ _ H) as (N1 & N2 & N3).
-  unfold fwd_headers. set (h := rq_headers q) in *.
-  set (h2 := if values_contain_token (hvalues h k_te) (bs "trailers") then _ else _).
-  assert (E2 : hvalues h2 k = hvalues h k).
-  { unfold h2. destruct (values_contain_token _ _); [rewrite hvalues_hset by assumption|];
-      now apply hvalues_remove_hop. }
-  set (h3 := if nonempty (upgrade_type h) then _ else _).
-  assert (E3 : hvalues h3 k = hvalues h k).
-  { unfold h3. destruct (nonempty (upgrade_type h)); [rewrite !hvalues_hset by assumption|]; exact E2. }
-  destruct (hhas h3 k_user_agent) eqn:U; [exact E3|].
-  destruct (beq k k_user_agent) eqn:B.
-  - apply beq_eq in B. specialize (UA B). subst k.
-    rewrite hhas_hvalues in U, UA. rewrite E3 in U. congruence.
-  - apply beq_neq in B. rewrite hvalues_hset by assumption. exact E3.
+  intros F H UA. apply forward_inv in F as (p & _ & _ & _ & _ & _ & E). rewrite E.
+  now apply fwd_headers_values.
+Qed.
+
+(* ---------- membership: where an upstream header can come from ---------- *)
+Lemma In_hdel kv k h : In kv (hdel k h) -> In kv h /\ beq (fst kv) k = false.
+Proof. unfold hdel. intros H. apply filter_In in H as [A B]. apply negb_true_iff in B. auto. Qed.
+Lemma In_hinsert kv k v h : In kv (hinsert k v h) -> kv = (k, v) \/ In kv h.
+Proof.
+  induction h as [|[a b] r IH]; cbn [hinsert]; intros H.
+  - destruct H as [H|[]]; auto.
+  - destruct (str_ltb k a).
+    + destruct H as [H|H]; auto.
+    + destruct H as [H|H]; [right; now left|]. destruct (IH H); auto. right. now right.
+Qed.
+Lemma In_hset kv k v h : In kv (hset k v h) -> kv = (k, v) \/ In kv h.
+Proof. unfold hset. intros H. apply In_hinsert in H as [H|H]; auto. apply In_hdel in H as [H _]. auto. Qed.
+Lemma In_fold_del ks : forall h kv,
+  In kv (fold_left (fun acc k0 => hdel k0 acc) ks h) -> In kv h /\ ~ In (fst kv) ks.
+Proof.
+  induction ks as [|a ks IH]; intros h kv H; cbn [fold_left] in H; [split; [exact H | intros []]|].
+  apply IH in H as [H N]. apply In_hdel in H as [H B]. split; [exact H|].
+  intros [E|E]; [|auto]. apply beq_neq in B. congruence.
+Qed.
+Lemma mem_str_not_in k l : ~ In k l -> mem_str k l = false.
+Proof.
+  intros N. unfold mem_str. destruct (existsb (beq k) l) eqn:E; [|reflexivity].
+  apply existsb_exists in E as [x [I B]]. apply beq_eq in B. subst x. contradiction.
+Qed.
+Lemma In_remove_hop k v h : In (k, v) (remove_hop h) -> In (k, v) h /\ is_hop h k = false.
+Proof.
+  unfold remove_hop. intros H. apply In_fold_del in H as [H N]. cbn [fst] in N. split; [exact H|].
+  unfold is_hop. apply orb_false_iff. split; apply mem_str_not_in; intros I; apply N; apply in_or_app; auto.
+Qed.
+
+Definition own_header (k v : str) : Prop :=
+  k = k_te \/ k = k_connection \/ k = k_upgrade \/ (k = k_user_agent /\ v = []).
+
+Lemma In_fwd_h3 k v h : In (k, v) (fwd_h3 h) -> (In (k, v) h /\ is_hop h k = false) \/ own_header k v.
+Proof.
+  unfold fwd_h3, own_header. intros H.
+  assert (A : forall x, In (k, v) (if values_contain_token (hvalues h k_te) (bs "trailers")
+                                   then hset k_te (bs "trailers") (remove_hop h) else remove_hop h) ->
+              (In (k, v) h /\ is_hop h k = false) \/ k = k_te \/ x).
+  { intros x I. destruct (values_contain_token _ _).
+    - apply In_hset in I as [I|I]; [inversion I; auto | left; now apply In_remove_hop].
+    - left. now apply In_remove_hop. }
+  destruct (nonempty (upgrade_type h)).
+  - apply In_hset in H as [H|H]; [inversion H; auto|].
+    apply In_hset in H as [H|H]; [inversion H; auto|]. destruct (A False H) as [B|[B|[]]]; auto.
+  - destruct (A False H) as [B|[B|[]]]; auto.
+Qed.
+
+Lemma In_fwd_headers k v h :
+  In (k, v) (fwd_headers h) -> (In (k, v) h /\ is_hop h k = false) \/ own_header k v.
+Proof.
+  rewrite fwd_headers_h3. destruct (hhas (fwd_h3 h) k_user_agent); intros H.
+  - now apply In_fwd_h3.
+  - apply In_hset in H as [H|H]; [inversion H; right; unfold own_header; auto 10 | now apply In_fwd_h3].
+Qed.
+
+Lemma hget_In h k : nonempty (hget h k) = true -> In (k, hget h k) h.
+Proof.
+  unfold hget. induction h as [|[a b] r IH]; [discriminate|].
+  rewrite hvalues_cons. destruct (beq a k) eqn:E.
+  - intros _. apply beq_eq in E. subst a. now left.
+  - intros H. right. now apply IH.
+Qed.
+
+Lemma In_wire_headers m k v h : In (k, v) (wire_headers m h) -> In (k, v) h.
+Proof.
+  unfold wire_headers. destruct (nonempty (hget h k_user_agent)) eqn:N; intros H.
+  - apply In_hset in H as [H|H]; [|exact H]. inversion H. now apply hget_In.
+  - now apply In_hdel in H as [H _].
+Qed.
+
+(* no header reaches the upstream that the client did not send, except the proxy's own
+   (Te: trailers, Connection/Upgrade of an upgrade request, the empty User-Agent; the forwarding
+   headers of property C08 are added outside this model and are projected away by the check) *)
+Theorem no_new_headers wire o q u k v :
+  forward wire o q = Ok u -> In (k, v) (up_headers u) ->
+  (In (k, v) (rq_headers q) /\ is_hop (rq_headers q) k = false) \/ own_header k v.
+Proof.
+  intros F I. apply forward_inv in F as (p & _ & _ & _ & _ & _ & E). rewrite E in I.
+  destruct wire; [apply In_wire_headers in I|]; now apply In_fwd_headers.
 Qed.
 
 Theorem method_body_identity wire o q u :
@@ -777,3 +903,115 @@ Example keep_raw_nonvacuous :
   /\ canonical_raw (raw_path_of (rq_target q)) = false
   /\ exists u, forward false o q = Ok u /\ up_target u = bs "/pre/a%2Fb/%41".
 Proof. repeat split. eexists. split; vm_compute; reflexivity. Qed.
+
+(* ================= the boolean specification the check evaluates (group B) ================= *)
+Lemma list_eqb_beq_refl l : list_eqb beq l l = true.
+Proof. induction l as [|a l IH]; [reflexivity|]. cbn [list_eqb]. now rewrite beq_refl, IH. Qed.
+
+Lemma hvalues_project drop h k : mem_str k drop = false -> hvalues (project drop h) k = hvalues h k.
+Proof.
+  intros N. unfold project. induction h as [|[a b] r IH]; [reflexivity|].
+  cbn [filter fst]. destruct (mem_str a drop) eqn:M; cbn [negb].
+  - rewrite hvalues_cons. destruct (beq a k) eqn:E; [apply beq_eq in E; congruence | exact IH].
+  - rewrite !hvalues_cons. destruct (beq a k); [f_equal|]; exact IH.
+Qed.
+Lemma hhas_project drop h k : mem_str k drop = false -> hhas (project drop h) k = hhas h k.
+Proof. intros N. now rewrite !hhas_hvalues, hvalues_project. Qed.
+Lemma names_project drop h k : In k (map fst (project drop h)) -> mem_str k drop = false.
+Proof.
+  intros I. apply in_map_iff in I as [[a b] [E I]]. cbn [fst] in E. subst a.
+  unfold project in I. apply filter_In in I as [_ I]. now apply negb_true_iff in I.
+Qed.
+
+Lemma wire_headers_other m h k : k <> k_user_agent -> hvalues (wire_headers m h) k = hvalues h k.
+Proof.
+  intros N. unfold wire_headers. destruct (nonempty _); [now apply hvalues_hset | now apply hvalues_hdel].
+Qed.
+
+(* values the upstream sees for a name that is not hop-by-hop *)
+Lemma up_values_e2e wire m h k :
+  is_hop h k = false ->
+  (wire = true -> k = k_user_agent ->
+   match hvalues h k with [] => True | [v] => nonempty v = true | _ => False end) ->
+  let hout := if wire then wire_headers m (fwd_headers h) else fwd_headers h in
+  (if beq k k_user_agent && negb (hhas h k)
+   then hvalues hout k = [[]] \/ hvalues hout k = []
+   else hvalues hout k = hvalues h k).
+Proof.
+  intros HK R hout. destruct (beq k k_user_agent) eqn:BU; cbn [andb].
+  - apply beq_eq in BU. subst k. destruct (hhas h k_user_agent) eqn:HU; cbn [negb].
+    + pose proof (fwd_headers_values h _ HK (fun _ => HU)) as V. unfold hout. destruct wire; [|exact V].
+      specialize (R eq_refl eq_refl). rewrite hhas_hvalues in HU.
+      destruct (hvalues h k_user_agent) as [|v [|w l]] eqn:VS; try discriminate; try contradiction.
+      unfold wire_headers, hget. rewrite V, R, V. apply hvalues_hset_same.
+    + pose proof (fwd_headers_ua_absent h HK HU) as V. unfold hout. destruct wire; [|now left].
+      right. unfold wire_headers, hget. rewrite V. cbn [nonempty]. apply hvalues_hdel_same.
+  - apply beq_neq in BU. unfold hout. destruct wire; [rewrite wire_headers_other by assumption|];
+      apply fwd_headers_values; auto; intros E; contradiction.
+Qed.
+
+Theorem spec_forward_rest_holds wire o q u :
+  forward wire o q = Ok u -> (wire = true -> region_ua_wire q = false) ->
+  spec_forward_rest o q u = true.
+Proof.
+  intros F R. pose proof (host_spec _ _ _ _ F) as HS.
+  pose proof F as F'. apply forward_inv in F' as (p & _ & M & B & _ & _ & E).
+  unfold spec_forward_rest. rewrite M, B, HS, !beq_refl. cbn [andb].
+  set (h := rq_headers q) in *. apply andb_true_iff. split.
+  - unfold e2e_same. apply forallb_forall. intros k I.
+    assert (NM : mem_str k managed_req = false).
+    { apply in_app_or in I as [I|I]; eapply names_project; eauto. }
+    rewrite !hvalues_project, !hhas_project by assumption.
+    destruct (is_hop h k) eqn:HK; [reflexivity|].
+    assert (RR : wire = true -> k = k_user_agent ->
+                 match hvalues h k with [] => True | [v] => nonempty v = true | _ => False end).
+    { intros W EK. subst k. specialize (R W). unfold region_ua_wire in R. fold h in R. rewrite HK in R.
+      cbn [negb andb] in R. destruct (hvalues h k_user_agent) as [|v [|w l]]; try exact I0; try discriminate.
+      - exact Logic.I.
+      - now apply negb_false_iff in R. }
+    pose proof (up_values_e2e wire (rq_method q) h k HK RR) as V. cbv zeta in V. rewrite <- E in V.
+    destruct (beq k k_user_agent && negb (hhas h k)).
+    + destruct V as [V|V]; rewrite ?hhas_hvalues, V; reflexivity.
+    + rewrite V. apply list_eqb_beq_refl.
+  - unfold own_hop_ok. apply forallb_forall. intros [k v] I. cbn [fst snd].
+    rewrite E in I. assert (J : In (k, v) (fwd_headers h)).
+    { destruct wire; [now apply In_wire_headers in I | exact I]. }
+    apply In_fwd_headers in J as [[_ J]|[J|[J|[J|[J1 J2]]]]].
+    + now rewrite J.
+    + subst k. destruct (negb _); reflexivity.
+    + subst k. destruct (negb _); reflexivity.
+    + subst k. destruct (negb _); reflexivity.
+    + subst k v. destruct (negb _); reflexivity.
+Qed.
+
+Theorem spec_response_respond drop r : spec_response drop r (respond r) = true.
+Proof.
+  unfold spec_response. cbn [respond rs_status rs_body rs_headers]. rewrite Z.eqb_refl, beq_refl. cbn [andb].
+  set (h := rs_headers r). apply andb_true_iff. split.
+  - unfold e2e_same. apply forallb_forall. intros k I.
+    assert (NM : mem_str k drop = false).
+    { apply in_app_or in I as [I|I]; eapply names_project; eauto. }
+    rewrite !hvalues_project, !hhas_project by assumption.
+    destruct (is_hop h k) eqn:HK; [reflexivity|].
+    pose proof (hvalues_remove_hop h k HK) as V.
+    destruct (beq k k_user_agent && negb (hhas h k)) eqn:C.
+    + apply andb_true_iff in C as [_ C]. apply negb_true_iff in C.
+      rewrite (hhas_hvalues (remove_hop h)), V, <- hhas_hvalues, C. apply orb_true_r.
+    + rewrite V. apply list_eqb_beq_refl.
+  - apply forallb_forall. intros [k v] I. cbn [fst]. unfold project in I.
+    apply filter_In in I as [I _]. apply In_remove_hop in I as [_ I]. now rewrite I.
+Qed.
+
+(* ---------- Host, clause by clause ---------- *)
+Theorem host_dst wire o q u :
+  forward wire o q = Ok u -> ro_host o = dst -> up_host u = ro_thost o.
+Proof.
+  intros F H. rewrite (host_spec _ _ _ _ F). unfold spec_host. rewrite H. reflexivity.
+Qed.
+Theorem host_named wire o q u :
+  forward wire o q = Ok u -> ro_host o <> [] -> ro_host o <> dst -> up_host u = ro_host o.
+Proof.
+  intros F N D. rewrite (host_spec _ _ _ _ F). unfold spec_host.
+  destruct (ro_host o) as [|c r] eqn:E; [contradiction|]. cbn [nonempty].
+  destruct (beq (c :: r) dst) eqn:B; [apply beq_eq in B; contradiction | reflexivity].
+Qed.
